@@ -849,6 +849,30 @@ matrix_ass_subscr(matrix* self, PyObject* args, PyObject* val)
   if (!val) PY_ERR_INT(PyExc_NotImplementedError,
       "cannot delete matrix entries");
 
+  /* an integer matrix that is used as an index into itself: the index
+     list must not change while the entries are assigned */
+  if (args == (PyObject *)self || (PyTuple_Check(args) &&
+      PyTuple_GET_SIZE(args) == 2 &&
+      (PyTuple_GET_ITEM(args,0) == (PyObject *)self ||
+       PyTuple_GET_ITEM(args,1) == (PyObject *)self))) {
+
+    PyObject *idx = (PyObject *)Matrix_NewFromMatrix(self, self->id);
+    if (!idx) return -1;
+
+    PyObject *args2;
+    if (args == (PyObject *)self) { args2 = idx; Py_INCREF(idx); }
+    else args2 = PyTuple_Pack(2,
+        (PyTuple_GET_ITEM(args,0) == (PyObject *)self ? idx :
+            PyTuple_GET_ITEM(args,0)),
+        (PyTuple_GET_ITEM(args,1) == (PyObject *)self ? idx :
+            PyTuple_GET_ITEM(args,1)));
+
+    int ret = (args2 ? matrix_ass_subscr(self, args2, val) : -1);
+    Py_XDECREF(args2);
+    Py_DECREF(idx);
+    return ret;
+  }
+
   if (!(PY_NUMBER(val) || Matrix_Check(val) || SpMatrix_Check(val))) {
 
     if (PyObject_CheckBuffer(val)) 
